@@ -101,7 +101,7 @@ def admissible_orders(prog, limit=None, rng=None):
                 return
 
 
-def candidate_groups(prog, max_size=3):
+def candidate_groups(prog, max_size=3, max_ext=2):
     """Sub-sets of nodes that can be wrapped into a sub-graph: <= 2 distinct outside producers, exactly one node
     referenced from outside (the output), no feedback node and no feedback-bound producer inside, contiguous
     closure (a node between two members on a path must be a member)."""
@@ -118,7 +118,7 @@ def candidate_groups(prog, max_size=3):
                 for j in nodes[i - 1]["ins"]:
                     if j not in S and j not in ext_in:
                         ext_in.append(j)
-            if len(ext_in) > 2:
+            if len(ext_in) > max_ext:
                 continue
             used_outside = {j for i in range(1, n + 1) if i not in S for j in nodes[i - 1]["ins"] if j in S}
             used_outside |= (bound & S)
@@ -156,11 +156,13 @@ def _reaches(nodes, i, targets):
     return False
 
 
-def render(prog, order=None, group=None, mode="nested", depth=1, name=None, capture=()):
+def render(prog, order=None, group=None, mode="nested", depth=1, name=None, capture=(), outer=()):
     """Scenario text for the engine driver.
     order : statement order of the root graph (list of node ids); default 1..N
     group : (members, ext_in, out) from candidate_groups, wrapped into sub-graph g0 and wired `mode`
             ('nested' | 'inline'); depth=2 wraps g0 into a second pass-through level g1.
+    outer : the outside producers (subset of ext_in) that the sub-graph body references directly as captured outer
+            ports ("o:<id>") instead of receiving them as declared boundary inputs.
     """
     nodes = prog["nodes"]
     n = len(nodes)
@@ -168,8 +170,10 @@ def render(prog, order=None, group=None, mode="nested", depth=1, name=None, capt
     lines = ["scn %s" % (name or ("p%s" % prog["id"])), "opt start=%d end=%d" % (prog["start"], prog["end"])]
     gid = n + 1  # id of the statement standing for the group
     if group:
-        members, ext_in, outn = group
+        members, all_in, outn = group
+        ext_in = [j for j in all_in if j not in outer]           # declared boundary inputs
         argref = {j: "a%d" % k for k, j in enumerate(ext_in)}
+        argref.update({j: "o:%d" % j for j in all_in if j in outer})
         lines.append("graph g0 nin=%d" % len(ext_in))
         _packs_done.clear()
         _pack_base[0] = 950
@@ -211,7 +215,7 @@ def render(prog, order=None, group=None, mode="nested", depth=1, name=None, capt
         x = min(ready, key=lambda y: prio[y])
         placed.append(x)
         if x == "G":
-            ins = ",".join(rootref(j) for j in group[1])
+            ins = ",".join(rootref(j) for j in group[1] if j not in outer)
             lines.append("n %d %s g=%d%s" % (gid, mode, top, (" in=" + ins) if ins else ""))
         else:
             lines.append(_stmt(x, nodes[x - 1], rootref))
